@@ -41,3 +41,6 @@ Definition run (cmd : text) (args : list bytes) : text :=
        match ApiTrace.run_trace cmd args with Some t => t | None =>
        match ApiHw.run_hw cmd args with Some t => t | None =>
        match ApiDump.run_dump cmd args with Some t => t | None => L """unknown command""" end end end end end end.
+
+(* a name no model function shares: the driver calls this one *)
+Definition pelmodel_entry (cmd : text) (args : list bytes) : text := run cmd args.
